@@ -138,7 +138,7 @@ func c11Script(r *hx.Rand, n int, out *hx.Out, _ []string) {
 		}
 		sb.WriteString("</body></html>")
 		doc := sb.String()
-		res := zooRun("htmljsonld", []byte(doc), zooOpts{base: location, offsets: rr.Chance(1, 4)})
+		res := zooRun("htmljsonld", []byte(doc), zooOpts{base: location})
 		impl, oracle := "!doc", ""
 		switch res.verdict {
 		case "ok":
@@ -213,7 +213,7 @@ func c11Combined(r *hx.Rand, n int, out *hx.Out, _ []string) {
 			out.Emit(hx.Case{Kind: "K/C11/combined-skip", Impl: "skip", Class: "a part does not decode", Desc: skip})
 			continue
 		}
-		res := zooRun("htmldefaults", []byte(doc), zooOpts{base: c11Location, offsets: rr.Chance(1, 4)})
+		res := zooRun("htmldefaults", []byte(doc), zooOpts{base: c11Location})
 		impl, oracle := "!doc", ""
 		switch res.verdict {
 		case "ok":
